@@ -456,7 +456,7 @@ def describe(real, c):
 # ------------------------------------------------------------------------------------------
 
 
-def s_family(label, steps, kw, model=True, workers=8):
+def s_family(label, steps, kw, model=True, workers=4):
   """Model-check one S family and export its transitions.  Returns (model result, histories)."""
   with cf.ThreadPoolExecutor(max_workers=2) as ex:
     fm = ex.submit(tlc.run, "FlowState", cfg("S", steps=steps, invs=S_INVS, view="SViewN", **kw),
@@ -547,13 +547,13 @@ def main():
 
   # ---- TLC: model checking + export, all families in parallel
   fams = THOROUGH_S if thorough else QUICK_S
-  with cf.ThreadPoolExecutor(max_workers=3 if thorough else 6) as ex:
+  with cf.ThreadPoolExecutor(max_workers=3) as ex:   # more parallel JVMs scale negatively on this box
     fc = ex.submit(c_family, "conds", 2 if thorough else 1, 3)
     fc2 = ex.submit(c_family, "conds-d2", 2, 2) if not thorough else None
     fs = [ex.submit(s_family, label, steps, kw) for label, steps, kw in fams]
     sims = [
-        ex.submit(s_simulate, "sim-all-ops", 12, 20000 if thorough else 1500, run.seed * 10 + 1, dict()),
-        ex.submit(s_simulate, "sim-deep-conds", 10, 20000 if thorough else 1000, run.seed * 10 + 2,
+        ex.submit(s_simulate, "sim-all-ops", 12, 20000 if thorough else 800, run.seed * 10 + 1, dict()),
+        ex.submit(s_simulate, "sim-deep-conds", 10, 20000 if thorough else 250, run.seed * 10 + 2,
                   dict(watoms=("p", "q", "r"), cd=2 if thorough else 1, ld=1,
                        ops=("storeval", "storeload", "storelit", "with", "merge", "copy"))),
     ]
@@ -659,7 +659,7 @@ def main():
                                            len(real.states[c["r"] - 1]["loc"]) > 1))})
   run.sample({"history": [{k: v for k, v in o.items() if v not in ("", 0)} for o in sres[0][1][-1]]})
   if not run.violations and not run.known_hits:
-    common.require(both > 200 and same > 50 and expl > 200,
+    common.require(both > 100 and same > 50 and expl > 100,
                    "vacuity: too few non-trivial merges (%d, %d, %d)" % (both, same, expl))
     common.require(kinds.get("with", 0) > 200 and kinds.get("varwith", 0) > 50, "vacuity: with_condition")
     common.require(stats["run"] >= 20 and n2 >= 20, "repository tests were not traced (%r)" % (stats,))
